@@ -53,6 +53,35 @@ TARGETS = [
     ("utils/transformations.py", ["minmax_scale"]),
     ("utils/_metrics.py", ["accuracy_score", "confusion_matrix", "recall_score", "precision_score", "f1_score"]),
 ]
+# plain-Python functions and methods of the adaptive optimizers (C15).  (module, class | None, function, output name, signature,
+# {parameter: constant it is specialised to}).  A method's reads of `self._x` become leading parameters `self_x` (types in SELF_FIELDS);
+# a store into self, or any other use of self, is rejected.  Specialising a parameter substitutes the constant and folds
+# `<const> is None`, integer arithmetic on constants and `if <const>`: the call sites are matched to a specialisation by their shape.
+SELF_FIELDS = {
+    "SHADE": {"_pop_size": "int64", "_H_size": "int64", "_H_F": "float64[:]", "_H_CR": "float64[:]"},
+    "SHAGA": {"_pop_size": "int64", "_H_size": "int64", "_H_MR": "float64[:]", "_H_CR": "float64[:]", "_str_len": "int64"},
+    "jDE": {"_pop_size": "int64", "_F": "float64[:]", "_CR": "float64[:]", "_t_F": "float64", "_t_CR": "float64", "_F_min": "float64", "_F_max": "float64"},
+}
+METHOD_TARGETS = [
+    ("optimizers/_shade.py", None, "lehmer_mean", "lehmer_mean_unweighted", "float64(float64[:])", {"power": 2, "weight": None}),
+    ("optimizers/_shade.py", None, "lehmer_mean", "lehmer_mean_weighted", "float64(float64[:], float64[:])", {"power": 2}),
+    ("optimizers/_shade.py", "SHADE", "_update_u_F", "SHADE_update_u_F", "float64(float64, float64[:])", {}),
+    ("optimizers/_shade.py", "SHADE", "_update_u_CR", "SHADE_update_u_CR", "float64(float64, float64[:], float64[:])", {}),
+    ("optimizers/_shade.py", "SHADE", "_generate_F_CR", "SHADE_generate_F_CR", "(float64[:], float64[:])()", {}),
+    ("optimizers/_shaga.py", "SHAGA", "_update_u", "SHAGA_update_u", "float64(float64, float64[:], float64[:])", {}),
+    ("optimizers/_shaga.py", "SHAGA", "_randc", "SHAGA_randc", "float64(float64, float64)", {}),
+    ("optimizers/_shaga.py", "SHAGA", "_randn", "SHAGA_randn", "float64(float64, float64)", {}),
+    ("optimizers/_shaga.py", "SHAGA", "_generate_MR_CR", "SHAGA_generate_MR_CR", "(float64[:], float64[:])()", {}),
+    ("optimizers/_jde.py", "jDE", "_get_mutate_F", "jDE_get_mutate_F", "float64[:]()", {}),
+    ("optimizers/_jde.py", "jDE", "_get_mutate_CR", "jDE_get_mutate_CR", "float64[:]()", {}),
+]
+# how a call site selects a specialisation: (callee, sorted names of the arguments given) -> output name
+CALL_SPECS = {
+    ("lehmer_mean", ("x",)): "lehmer_mean_unweighted",
+    ("lehmer_mean", ("weight", "x")): "lehmer_mean_weighted",
+}
+C15_METHODS = [t[3] for t in METHOD_TARGETS]
+
 # functions without an @njit signature: parameter / return types written as the signature would be
 MANUAL_SIGS = {
     "empty_crossover": "int8[:](int8[:, :], float64[:], float64[:])",
@@ -67,6 +96,7 @@ WHILE_FUEL = {
 }
 
 Z, Q, B = "Z", "Q", "B"
+MANUAL_PARSED = {}
 
 
 def L(t):
@@ -78,6 +108,8 @@ def is_list(t):
 
 
 def coq_type(t):
+    if isinstance(t, tuple) and t[0] == "T":
+        return "(" + " * ".join(coq_type(x) for x in t[1]) + ")"
     if t == Z:
         return "Z"
     if t == Q:
@@ -115,6 +147,8 @@ def sig_type(node):
             return Q
         if node.id == "boolean":
             return B
+    if isinstance(node, ast.Tuple):
+        return ("T", tuple(sig_type(e) for e in node.elts))
     if isinstance(node, ast.Subscript) and isinstance(node.value, ast.Name):
         base = sig_type(node.value)
         sl = node.slice
@@ -314,6 +348,9 @@ class Translator:
             # a Python list of ints (used as a stack by the tree helpers)
             cs = [self.expr(fn, sc, x, pre, Z)[0] for x in e.elts]
             return "([" + "; ".join(cs) + "] : list Z)", L(Z)
+        if isinstance(e, ast.Tuple):
+            cs = [self._expr(fn, sc, x, pre) for x in e.elts]
+            return "(" + ", ".join(c for c, _ in cs) + ")", ("T", tuple(t for _, t in cs))
         if isinstance(e, ast.Name):
             if e.id in sc.poisoned:
                 raise Untranslatable(e, f"'{e.id}' is read after the loop/branch that defines it (value not tracked: possibly uninitialised)")
@@ -357,6 +394,8 @@ class Translator:
             for k, op in enumerate(e.ops):
                 (a, ta), (b, tb) = cs[k], cs[k + 1]
                 parts.append(self.compare(e, op, a, ta, b, tb))
+            if len(parts) == 1 and cs[0][1] == L(Q) and cs[1][1] in (Z, Q):
+                return parts[0], L(B)
             return (parts[0] if len(parts) == 1 else "(" + " && ".join(parts) + ")"), B
         if isinstance(e, ast.BinOp):
             a, ta = self._expr(fn, sc, e.left, pre)
@@ -395,6 +434,8 @@ class Translator:
                 return f"(Qeq_bool {a} {b})"
             if isinstance(op, ast.NotEq):
                 return f"(negb (Qeq_bool {a} {b}))"
+        if ta == L(Q) and tb in (Z, Q) and isinstance(op, ast.Lt):
+            return f"(ltmaskQ {a} {self.coerce(b, tb, Q, node)})"       # element-wise array < scalar: typed list bool by the caller
         if ta == L(Z) and tb == L(Z) and isinstance(op, ast.Eq):
             return f"(eqmaskZ {a} {b})"      # typed below by the caller through astype
         raise Untranslatable(node, f"comparison {type(op).__name__} on {ta}, {tb}")
@@ -419,6 +460,8 @@ class Translator:
             return f"(smul {self.coerce(a, ta, Q, node)} {b})", L(Q)
         if ta == L(Q) and tb in (Z, Q) and isinstance(op, ast.Mult):
             return f"(smul {self.coerce(b, tb, Q, node)} {a})", L(Q)
+        if ta in (Z, Q) and tb == L(Q) and isinstance(op, ast.Add):
+            return f"(sadd {self.coerce(a, ta, Q, node)} {b})", L(Q)
         if ta == L(Q) and tb in (Z, Q) and isinstance(op, ast.Sub):
             return f"(vsubs {a} {self.coerce(b, tb, Q, node)})", L(Q)
         if ta == L(Q) and tb in (Z, Q) and isinstance(op, ast.Div):
@@ -589,8 +632,15 @@ class Translator:
             if t == L(Q):
                 return f"(meanQ {c})", Q
             raise Untranslatable(e, "mean of " + str(t))
+        if name == "np.power" and len(e.args) == 2 and isinstance(e.args[1], ast.Constant) and type(e.args[1].value) is int and e.args[1].value >= 0:
+            c, t = self._expr(fn, sc, e.args[0], pre)
+            if t == L(Q):
+                return f"(vpow {c} {e.args[1].value})", L(Q)
+            raise Untranslatable(e, "power of " + str(t))
         if name == "np.sum" and len(e.args) == 1:
             c, t = self._expr(fn, sc, e.args[0], pre)
+            if t == L(B):
+                return f"(countB {c})", Z
             if t == L(Z):
                 return f"(sumZ {c})", Z
             if t == L(Q):
@@ -802,6 +852,10 @@ class Translator:
                 j, _ = self.expr(fn, sc, sl.elts[1], pre, Z)
                 v, _ = self.expr(fn, sc, value, pre, Z)
                 code = f"set2 {cname(base.id)} {i} {j} {v}"
+            elif isinstance(sl, ast.Name) and sc.env.get(sl.id) == L(B) and t == L(Q):
+                # a[mask] = <array with one element per True of the mask>
+                v, _ = self.expr(fn, sc, value, pre, L(Q))
+                code = f"mask_scatter {cname(sl.id)} {cname(base.id)} {v}"
             else:
                 if isinstance(sl, ast.Slice):
                     raise Untranslatable(s, "slice store")
@@ -1075,11 +1129,14 @@ class Translator:
         for d in node.decorator_list:
             if isinstance(d, ast.Call) and ast.unparse(d.func) == "njit" and d.args:
                 sig = d.args[0]
-        if sig is None:
-            if node.name not in MANUAL_SIGS:
-                raise Untranslatable(node, "no njit signature and no manual signature")
-            sig = ast.parse(MANUAL_SIGS[node.name]).body[0].value
-        ret_t, arg_ts = parse_sig(sig)
+        if node.name in MANUAL_PARSED:
+            ret_t, arg_ts = MANUAL_PARSED[node.name]
+        else:
+            if sig is None:
+                if node.name not in MANUAL_SIGS:
+                    raise Untranslatable(node, "no njit signature and no manual signature")
+                sig = ast.parse(MANUAL_SIGS[node.name]).body[0].value
+            ret_t, arg_ts = parse_sig(sig)
         fn = Fn(self, node, ret_t, arg_ts)
         if node.args.vararg or node.args.kwarg or node.args.kwonlyargs:
             raise Untranslatable(node, "parameter kinds")
@@ -1127,7 +1184,151 @@ class Translator:
                     self.out.append((n, None, str(ex), rel, defs[n].lineno))
                 except NeedsMonad:
                     self.out.append((n, None, "effect in a pure context", rel, defs[n].lineno))
+        method_fields = {}
+        for rel, cls, fname_, oname, sig, consts in METHOD_TARGETS:
+            path = os.path.join(self.src_root, "thefittest", rel)
+            line = 0
+            try:
+                mod = ast.parse(open(path).read())
+                scope = mod.body
+                if cls is not None:
+                    cl = [n for n in mod.body if isinstance(n, ast.ClassDef) and n.name == cls]
+                    if not cl:
+                        raise Untranslatable(mod, f"class {cls} not found")
+                    scope = cl[0].body
+                fd = [n for n in scope if isinstance(n, ast.FunctionDef) and n.name == fname_]
+                if not fd:
+                    raise Untranslatable(mod, f"{fname_} not found in {rel}")
+                line = fd[0].lineno
+                if fname_ == "lehmer_mean" and [a.arg for a in fd[0].args.args] != list(CALL_POS["lehmer_mean"]):
+                    raise Untranslatable(fd[0], "parameters of lehmer_mean changed")
+                new, fields = specialise(fd[0], cls, oname, consts, method_fields)
+                ret_t, arg_ts = parse_sig(ast.parse(sig).body[0].value)
+                field_ts = [sig_type(ast.parse(SELF_FIELDS[cls][f_]).body[0].value) for f_ in fields]
+                MANUAL_PARSED[oname] = (ret_t, field_ts + arg_ts)
+                self.out.append((oname, self.function(new, rel), None, rel, line))
+                method_fields[(cls, fname_)] = (oname, fields)
+            except Untranslatable as ex:
+                self.out.append((oname, None, str(ex), rel, line))
+            except NeedsMonad:
+                self.out.append((oname, None, "effect in a pure context", rel, line))
+            except Exception as ex:
+                self.out.append((oname, None, f"{type(ex).__name__}: {ex}", rel, line))
         return self.out
+
+
+def specialise(node, cls, out_name, consts, method_fields):
+    """FunctionDef of a plain function / method -> FunctionDef named out_name over explicit parameters (see METHOD_TARGETS)"""
+    import copy
+    node = copy.deepcopy(node)
+    params = [a.arg for a in node.args.args]
+    used_fields = []
+    if cls is not None:
+        if params[:1] != ["self"]:
+            raise Untranslatable(node, "method without self")
+        params = params[1:]
+    for c in consts:
+        if c not in params:
+            raise Untranslatable(node, f"no parameter {c} to specialise")
+    defaults = dict(zip([a.arg for a in node.args.args][len(node.args.args) - len(node.args.defaults):], node.args.defaults))
+    for c, v in consts.items():
+        # a specialised parameter the call sites do not pass takes its default: the default must be the constant
+        if c in defaults and not (isinstance(defaults[c], ast.Constant) and defaults[c].value == v):
+            raise Untranslatable(node, f"default of {c} is no longer {v!r}")
+    kept = [p for p in params if p not in consts]
+
+    class Rw(ast.NodeTransformer):
+        def visit_Attribute(self_, n):
+            if isinstance(n.value, ast.Name) and n.value.id == "self":
+                if not isinstance(n.ctx, ast.Load):
+                    raise Untranslatable(n, "store into self." + n.attr)
+                if cls is None or n.attr not in SELF_FIELDS[cls]:
+                    raise Untranslatable(n, f"self.{n.attr} is not a declared field")
+                if n.attr not in used_fields:
+                    used_fields.append(n.attr)
+                return ast.copy_location(ast.Name(id="self" + n.attr, ctx=ast.Load()), n)
+            return self_.generic_visit(n)
+
+        def visit_Call(self_, n):
+            # self._m(...)  ->  Class_m(<fields of the callee>, ...)
+            if isinstance(n.func, ast.Attribute) and isinstance(n.func.value, ast.Name) and n.func.value.id == "self":
+                key = (cls, n.func.attr)
+                if key not in method_fields:
+                    raise Untranslatable(n, f"call of the untranslated method self.{n.func.attr}")
+                oname, fields = method_fields[key]
+                for f_ in fields:
+                    if f_ not in used_fields:
+                        used_fields.append(f_)
+                args = [ast.Name(id="self" + f_, ctx=ast.Load()) for f_ in fields] + [self_.visit(a) for a in n.args]
+                kws = [ast.keyword(arg=k.arg, value=self_.visit(k.value)) for k in n.keywords]
+                return ast.copy_location(ast.Call(func=ast.Name(id=oname, ctx=ast.Load()), args=args, keywords=kws), n)
+            n = self_.generic_visit(n)
+            if isinstance(n.func, ast.Name):
+                given = tuple(sorted([k.arg for k in n.keywords]))
+                for (callee, names), oname in CALL_SPECS.items():
+                    if n.func.id == callee:
+                        # positional arguments are named after the callee's parameters by the specialisation's own check (_kwargs)
+                        pos = CALL_POS[callee][:len(n.args)]
+                        if tuple(sorted(list(pos) + list(given))) == names:
+                            kws = [ast.keyword(arg=a, value=v) for a, v in zip(pos, n.args)] + list(n.keywords)
+                            return ast.copy_location(ast.Call(func=ast.Name(id=oname, ctx=ast.Load()), args=[], keywords=kws), n)
+                if any(n.func.id == callee for (callee, _) in CALL_SPECS):
+                    raise Untranslatable(n, f"call shape of {n.func.id} matches no specialisation")
+            return n
+
+        def visit_Name(self_, n):
+            if n.id == "self":
+                raise Untranslatable(n, "self used other than as self._field / self._method(...)")
+            if n.id in consts:
+                if not isinstance(n.ctx, ast.Load):
+                    raise Untranslatable(n, f"assignment to the specialised parameter {n.id}")
+                return ast.copy_location(ast.Constant(value=consts[n.id]), n)
+            return n
+
+    def fold(n):
+        """constant folding after substitution"""
+        class F(ast.NodeTransformer):
+            def visit_Compare(self_, c):
+                c = self_.generic_visit(c)
+                if len(c.ops) == 1 and isinstance(c.ops[0], (ast.Is, ast.IsNot)) and isinstance(c.comparators[0], ast.Constant) \
+                        and c.comparators[0].value is None:
+                    val = None
+                    if isinstance(c.left, ast.Constant):
+                        val = c.left.value is None
+                    elif isinstance(c.left, ast.Name) and c.left.id in kept:
+                        val = False          # a parameter of the (non-Optional) signature of this specialisation
+                    if val is not None:
+                        return ast.copy_location(ast.Constant(value=val if isinstance(c.ops[0], ast.Is) else not val), c)
+                return c
+
+            def visit_BinOp(self_, b):
+                b = self_.generic_visit(b)
+                if isinstance(b.left, ast.Constant) and isinstance(b.right, ast.Constant) and type(b.left.value) is int and type(b.right.value) is int:
+                    if isinstance(b.op, ast.Add):
+                        return ast.copy_location(ast.Constant(value=b.left.value + b.right.value), b)
+                    if isinstance(b.op, ast.Sub):
+                        return ast.copy_location(ast.Constant(value=b.left.value - b.right.value), b)
+                return b
+
+            def visit_If(self_, i):
+                i = self_.generic_visit(i)
+                if isinstance(i.test, ast.Constant) and isinstance(i.test.value, bool):
+                    return i.body if i.test.value else (i.orelse or [ast.Pass()])
+                return i
+        return F().visit(n)
+
+    body = []
+    for st in node.body:
+        r = fold(Rw().visit(st))
+        body.extend(r if isinstance(r, list) else [r])
+    new_params = ["self" + f_ for f_ in used_fields] + kept
+    fd = ast.FunctionDef(name=out_name, args=ast.arguments(posonlyargs=[], args=[ast.arg(arg=p) for p in new_params], kwonlyargs=[], kw_defaults=[], defaults=[]),
+                         body=body, decorator_list=[], lineno=node.lineno, col_offset=0)
+    ast.fix_missing_locations(fd)
+    return fd, used_fields
+
+
+CALL_POS = {"lehmer_mean": ("x", "power", "weight")}
 
 
 def indent(text):
